@@ -686,7 +686,14 @@ def execute(case, prefix, eval_against="ref"):
             return finish(out, stats, log, live, measure)
         if case.get("theta") is not None and live.ref.p:
             names = live.ref.param_names
-            live.ode.parameters = list(case["theta"])
+            try:
+                live.ode.parameters = list(case["theta"])
+            except (core.HarnessError, core.RunTimeout):
+                raise
+            except Exception as e:
+                # a full-length ordered list is an accepted form for every declaration style
+                out.append(core.crash_failure(prefix, e, -1, "initial ordered-list parameter assignment"))
+                return finish(out, stats, log, live, measure)
             live.values = dict(zip(names, case["theta"]))
         for step, op in enumerate(case["ops"]):
             kind = op["op"]
@@ -813,7 +820,7 @@ def reductions(case):
         d["order"] = None
         yield d
     for key in ("state_decl", "param_decl"):
-        if c["model"].get(key) == "string":
+        if c["model"].get(key) in ("string", "objects"):
             d = clone()
             d["model"][key] = "list"
             yield d
@@ -854,7 +861,7 @@ def execute_variants(case, prefix):
                     for tr in pr["trans"]:
                         if tr["type"] == "B" and bb:
                             tr["birth_by"] = bb
-            for key in ("state_decl", "state_sep", "param_decl", "param_sep"):
+            for key in ("state_decl", "state_sep", "param_decl", "param_sep", "state_display", "param_display"):
                 if key in var:
                     model[key] = var[key]
             try:
@@ -962,7 +969,7 @@ def variant_reductions(case):
             d["variants"][vi]["order"] = None
             yield d
         for key in ("state_decl", "param_decl"):
-            if v.get(key) == "string":
+            if v.get(key) in ("string", "objects"):
                 d = clone()
                 d["variants"][vi][key] = "list"
                 yield d
